@@ -558,3 +558,345 @@ def shrink_ob(hist, fails):
                 changed = True
                 break
     return (limit, ovf, ops)
+
+
+# ---------------------------------------------------------------------------
+# operating-system faults at representation changes
+#
+# A fault is (target, method, nth, exception kind): the nth call of `method` on
+# a file object of kind `target` made while ONE chosen operation runs raises.
+#   target "tmp":  tempfile.TemporaryFile  -- method "ctor" is TemporaryFile() itself
+#   target "bio":  io.BytesIO              -- method "ctor" is BytesIO() itself
+# Observation (file_state) happens with the plan disarmed.
+
+import errno as _errno
+
+EXC_KINDS = {
+    "EMFILE": lambda: OSError(_errno.EMFILE, "Too many open files (injected)"),
+    "ENOSPC": lambda: OSError(_errno.ENOSPC, "No space left on device (injected)"),
+    "EACCES": lambda: OSError(_errno.EACCES, "Permission denied (injected)"),
+    "MemoryError": lambda: MemoryError("injected"),
+}
+
+
+class FaultPlan:
+    def __init__(self):
+        self.armed = False
+        self.recording = False
+        self.fault = None      # (target, method, nth, exckind)
+        self.count = {}
+        self.fired = None      # the exception object raised
+        self.site = None       # where in waitress/buffers.py it was raised
+
+    def reset(self):
+        self.count = {}
+        self.fired = None
+        self.site = None
+
+    def hit(self, target, method):
+        if not (self.armed or self.recording):
+            return
+        k = (target, method)
+        self.count[k] = self.count.get(k, 0) + 1
+        if self.armed and self.fault is not None and self.fired is None:
+            t, m, nth, ek = self.fault
+            if (t, m) == k and self.count[k] == nth:
+                self.fired = EXC_KINDS[ek]()
+                self.site = _site_of_stack(m)
+                raise self.fired
+
+
+def _site_of_stack(method):
+    """which part of waitress/buffers.py is executing: decided from the call stack"""
+    import sys
+    names = []
+    f = sys._getframe(2)
+    while f is not None:
+        if f.f_code.co_filename.replace("\\", "/").endswith("waitress/buffers.py"):
+            names.append(f.f_code.co_name)
+        f = f.f_back
+    if method == "ctor":
+        return "ctor"
+    if "__init__" in names:
+        return "copy"            # FileBasedBuffer.__init__(file, from_buffer): the copy loop
+    if "_create_buffer" in names:
+        return "create_append"   # _create_buffer: buf.append(self.strbuf)
+    if names and names[0] == "append":
+        return "append"          # FileBasedBuffer.append(s)
+    return names[0] if names else "?"
+
+
+PLAN = FaultPlan()
+
+
+class FaultyBytesIO(io.BytesIO):
+    def __init__(self, *a):
+        PLAN.hit("bio", "ctor")
+        io.BytesIO.__init__(self, *a)
+
+    def write(self, b):
+        PLAN.hit("bio", "write")
+        return io.BytesIO.write(self, b)
+
+    def read(self, *a):
+        PLAN.hit("bio", "read")
+        return io.BytesIO.read(self, *a)
+
+    def seek(self, *a):
+        PLAN.hit("bio", "seek")
+        return io.BytesIO.seek(self, *a)
+
+    def tell(self):
+        PLAN.hit("bio", "tell")
+        return io.BytesIO.tell(self)
+
+
+class FaultyTmp:
+    """a real TemporaryFile behind a delegating wrapper"""
+
+    def __init__(self, real):
+        self._f = real
+
+    def write(self, b):
+        PLAN.hit("tmp", "write")
+        return self._f.write(b)
+
+    def read(self, *a):
+        PLAN.hit("tmp", "read")
+        return self._f.read(*a)
+
+    def seek(self, *a):
+        PLAN.hit("tmp", "seek")
+        return self._f.seek(*a)
+
+    def tell(self):
+        PLAN.hit("tmp", "tell")
+        return self._f.tell()
+
+    def close(self):
+        return self._f.close()
+
+    def flush(self):
+        return self._f.flush()
+
+    def fileno(self):
+        return self._f.fileno()
+
+    @property
+    def closed(self):
+        return self._f.closed
+
+
+class FaultEnv:
+    """context manager: waitress.buffers uses the fault-capable file classes"""
+
+    def __init__(self, hist):
+        self.hist = hist
+
+    def __enter__(self):
+        import waitress.buffers as wb
+        self.wb = wb
+        self.saved = (wb.STRBUF_LIMIT, wb.COPY_BYTES, wb.BytesIO, tempfile.TemporaryFile)
+        real_tmp = tempfile.TemporaryFile
+
+        def faulty_temporary_file(*a, **kw):
+            PLAN.hit("tmp", "ctor")
+            return FaultyTmp(real_tmp(*a, **kw))
+        wb.STRBUF_LIMIT = self.hist[0]
+        wb.COPY_BYTES = copy_bytes_for(self.hist, self.saved[1])
+        wb.BytesIO = FaultyBytesIO
+        tempfile.TemporaryFile = faulty_temporary_file
+        PLAN.armed = PLAN.recording = False
+        PLAN.fault = None
+        PLAN.reset()
+        return self
+
+    def __exit__(self, *a):
+        wb = self.wb
+        wb.STRBUF_LIMIT, wb.COPY_BYTES, wb.BytesIO, tempfile.TemporaryFile = self.saved
+        PLAN.armed = PLAN.recording = False
+        PLAN.fault = None
+
+
+def fault_sites(hist):
+    """fault-free run with call recording: -> list of (op index, from tag, to tag,
+    {(target, method): number of calls made while that op ran}) for every op
+    at which the representation changes"""
+    limit, ovf, ops = hist
+    sites = []
+    with FaultEnv(hist) as env:
+        b = env.wb.OverflowableBuffer(ovf)
+        tag = "str"
+        for i, op in enumerate(ops):
+            PLAN.reset()
+            PLAN.recording = True
+            apply_ob(b, op)
+            PLAN.recording = False
+            st, _ = ob_state(env.wb, b)
+            t2 = st.split()[0][4:]
+            if t2 != tag:
+                sites.append((i, tag, t2, dict(PLAN.count)))
+            tag = t2
+        try:
+            b.close()
+        except Exception:
+            pass
+    return sites
+
+
+def run_faulted(hist, at, fault):
+    """ops[:at] fault-free, op `at` with the fault armed, the rest fault-free.
+    -> (rows, fired) where rows[i] = (out, state line, bytes held or None, len)
+    for every op, and fired = the injected exception was raised"""
+    limit, ovf, ops = hist
+    rows = []
+    with FaultEnv(hist) as env:
+        b = env.wb.OverflowableBuffer(ovf)
+        fired = False
+        site = None
+        for i, op in enumerate(ops):
+            if i == at:
+                PLAN.reset()
+                PLAN.fault = fault
+                PLAN.armed = True
+            try:
+                out = apply_ob(b, op) if i != at else apply_ob_raw(b, op)
+            finally:
+                PLAN.armed = False
+            if i == at:
+                fired = PLAN.fired is not None
+                site = PLAN.site
+            content = None
+            try:
+                st, held = ob_state(env.wb, b)
+                ln = b.__len__()
+                if b.buf is not None and not b.buf.file.closed:
+                    content = file_state(b.buf.file)[2]
+            except Exception as e:  # noqa
+                st, held, ln = "unobservable:%s" % type(e).__name__, None, -1
+            rows.append((out, st, held, ln, content))
+        try:
+            b.close()
+        except Exception:
+            pass
+    return rows, fired, site
+
+
+MODEL_FAULT = {("tmp", "ctor"): "ctor-tmp", ("bio", "ctor"): "ctor-bio", ("tmp", "write"): "copywrite"}
+
+
+def faults_at(site, hist):
+    """the faults injected at one representation change: constructor faults with
+    every exception kind, and every position of every file method call"""
+    i, t1, t2, counts = site
+    out = []
+    for (tgt, meth), n in sorted(counts.items()):
+        if meth == "ctor":
+            kinds = ("EMFILE", "ENOSPC", "EACCES", "MemoryError") if tgt == "tmp" else ("MemoryError",)
+            for ek in kinds:
+                out.append((tgt, meth, 1, ek))
+        else:
+            ek = "ENOSPC" if tgt == "tmp" else "MemoryError"
+            for nth in range(1, n + 1):
+                out.append((tgt, meth, nth, ek))
+    return out
+
+
+def fault_model_lines(hist, at, fault):
+    """model lines for a faulted run, or None when the model does not carry this fault"""
+    kind = MODEL_FAULT.get((fault[0], fault[1]))
+    if kind is None or fault[2] != 1:
+        return None
+    limit, ovf, ops = hist
+    lines = ["new %d %d" % (limit, ovf)]
+    for i, op in enumerate(ops):
+        lines.append(("fault %s " % kind if i == at else "") + op_line(op))
+    return lines
+
+
+def judge_faulted(hist, at, fault, rows, fired, site, q_before):
+    """the fault specification, on the real code.
+    -> (verdict, detail): verdict 'notfired' | 'ok' | 'weak' | 'bad'
+       ok:   the exception propagated, the buffer is the queue it was (or, for append,
+             that queue plus the appended bytes), len is truthful, later operations behave
+       weak: not ok, but nothing is destroyed: the buffer is open, every queued byte is
+             still stored (file content / strbuf) and the counters are those of the queue
+       bad:  anything else"""
+    limit, ovf, ops = hist
+    if not fired:
+        return "notfired", ""
+    out, st, held, ln = rows[at][:4]
+    op = ops[at]
+    acceptable = [q_before]
+    if op[0] == "append":
+        acceptable.append(q_before + bytes.fromhex(op[1]))
+    problem = None
+    if not out.startswith("fault:"):
+        problem = "the injected exception did not propagate: %s" % out
+    elif held is None or held not in acceptable:
+        problem = "after the failed %s the buffer holds %s, before it held %s" % (op[0], "nothing readable" if held is None else show(held), show(q_before))
+    elif ln != len(held):
+        problem = "after the failed %s len is %d but %d bytes are held" % (op[0], ln, len(held))
+    else:
+        ref = RefQueue()
+        ref.q = held
+        ref.appended = len(held)
+        for j in range(at + 1, len(ops)):
+            o2, st2, held2, ln2 = rows[j][:4]
+            v = ref.check(ops[j], o2, held2, ln2)
+            if v is not None:
+                problem = "operation %d after the fault: %s" % (j + 1, v)
+                break
+    if problem is None:
+        return "ok", ""
+    # nothing destroyed?  the buffer is open and every queued byte is still stored
+    weak = False
+    content = rows[at][4]
+    if st.startswith("tag=") and not st.startswith("tag=str") and "closed=0" in st and content is not None:
+        sb = re.search(r"strbuf=(\S+)", st).group(1)
+        remain = int(re.search(r"remain=(-?\d+)", st).group(1))
+        if sb != "-":
+            # _create_buffer: buf.append(self.strbuf) did not complete; strbuf still holds everything
+            weak = sb == show(q_before)
+        else:
+            # the file holds every queued byte and remain is the length of the queue (before or after)
+            weak = any(content.endswith(acc) for acc in acceptable) and remain in [len(acc) for acc in acceptable]
+    return ("weak" if weak else "bad"), problem
+
+
+def compare_faulted_model(rows, model):
+    """real rows of a faulted run against the model's lines (lines[0] is 'new')"""
+    for i, (row, mline) in enumerate(zip(rows, model[1:])):
+        parts = [p.strip() for p in mline.split(" | ")]
+        mout, mst = parts[0], canon_model_state(parts[1])
+        out = "exn:fault" if row[0].startswith("fault:") else row[0]
+        if (out, row[1]) != (mout, mst):
+            return (i + 1, "model", "%s | %s" % (mout, mst), "%s | %s" % (out, row[1]))
+    return None
+
+
+def apply_ob_raw(b, op):
+    """like apply_ob, but an injected exception is reported by identity"""
+    try:
+        k = op[0]
+        if k == "append":
+            b.append(bytes.fromhex(op[1]))
+            return "unit"
+        if k == "get":
+            return "bytes:" + show(b.get(op[1], bool(op[2])))
+        if k == "skip":
+            b.skip(op[1], bool(op[2]))
+            return "unit"
+        if k == "len":
+            return "len:%d" % b.__len__()
+        if k == "getfile":
+            b.getfile()
+            return "file"
+        if k == "close":
+            b.close()
+            return "unit"
+        return "other:badop"
+    except BaseException as e:  # noqa
+        if e is PLAN.fired:
+            return "fault:" + type(e).__name__
+        return exn_s(e)
